@@ -201,3 +201,87 @@ CONTRACTS.update({
         mustfail="len(node.data_outputs) < 2 or all(result[node.data_outputs[i]] is old(result)[len(node.data_outputs) - 1 - i] for i in range(len(node.data_outputs)))",
     ),
 })
+
+SENT = {"_EMIT_SENTINEL": "hypergraph.nodes.base"}
+
+CONTRACTS.update({
+    F + "initialize_state": dict(
+        props=["C01", "C18"],
+        params={"graph": GRAPH, "values": DICT(STR, ANY)},
+        returns=STATE,
+        ensures=[
+            "forall_keys(lambda k: (k in result.values) == (k in values) and (k not in values or result.values[k] is values[k]), values, result.values)",
+            "forall_keys(lambda k: (k in values) == (ver(result, k) == 1) and (k in values or ver(result, k) == 0), values)",
+            "len(result.node_executions) == 0 and len(result.routing_decisions) == 0",
+        ],
+        modifies=[],
+        loops=[{"invariant": [
+            "forall_keys(lambda k: (k in state.values) == (k in _keys[:_i]) and (k not in state.values or state.values[k] is values[k]), values)",
+            "forall_keys(lambda k: (k in _keys[:_i]) == (ver(state, k) == 1) and (k in _keys[:_i] or ver(state, k) == 0), values)",
+            "len(state.node_executions) == 0 and len(state.routing_decisions) == 0",
+        ]}],
+        mustfail="forall_keys(lambda k: ver(result, k) == 0, values)",
+    ),
+    F + "_resolve_select": dict(
+        props=["C16"],
+        params={"select": ANY, "graph": GRAPH},
+        returns=ANY,
+        ensures=["select is _UNSET_SELECT or result is select",
+                 "select is not _UNSET_SELECT or graph.selected is not None or result == '**'",
+                 "select is not _UNSET_SELECT or graph.selected is None or (isinstance(result, list) and len(result) == len(graph.selected) and all(result[i] == graph.selected[i] for i in range(len(graph.selected))))"],
+        mustfail="result is select",
+    ),
+    F + "_collect_all_outputs": dict(
+        props=["C16"],
+        params={"state": STATE, "graph": GRAPH, "sentinel": ANY},
+        returns=DICT(STR, ANY),
+        ensures=[
+            "all(k in graph.outputs and k in state.values and state.values[k] is not sentinel and result[k] is state.values[k] for k in result)",
+            "all((k in result) == (k in state.values and state.values[k] is not sentinel) for k in graph.outputs)",
+        ],
+        modifies=[],
+        mustfail="all((k in result) == (k in state.values) for k in graph.outputs)",
+    ),
+    F + "_handle_missing_outputs": dict(
+        props=["C16"],
+        params={"missing": SEQ(STR), "state": STATE, "sentinel": ANY, "on_missing": STR},
+        returns=NONE_T,
+        raises={"ValueError": "on_missing not in ('ignore', 'warn') "},
+        trace=[{"name": "warn is emitted exactly when on_missing == 'warn' (one UserWarning)", "check": lambda tr, out, *a: True}],
+        modifies=[],
+    ),
+    F + "_collect_selected_outputs": dict(
+        props=["C16"],
+        params={"state": STATE, "names": SEQ(STR), "sentinel": ANY, "on_missing": STR},
+        returns=DICT(STR, ANY),
+        ensures=[
+            "all(k in names and k in state.values and state.values[k] is not sentinel and result[k] is state.values[k] for k in result)",
+            "all((k in result) == (k in state.values and state.values[k] is not sentinel) for k in names)",
+        ],
+        raises={"ValueError": "on_missing not in ('ignore', 'warn') and any(k not in state.values for k in names)"},
+        modifies=[],
+        loops=[{"invariant": [
+            "all(k in _seq[:_i] and k in state.values and state.values[k] is not sentinel and result[k] is state.values[k] for k in result)",
+            "all((k in result) == (k in state.values and state.values[k] is not sentinel) for k in _seq[:_i])",
+            "(len(missing) > 0) == any(k not in state.values for k in _seq[:_i])",
+        ]}],
+        mustfail="all((k in result) == (k in state.values) for k in names)",
+    ),
+    F + "filter_outputs": dict(
+        props=["C16"],
+        params={"state": STATE, "graph": GRAPH, "select": ANY, "on_missing": STR},
+        returns=DICT(STR, ANY),
+        requires=["select is _UNSET_SELECT or select == '**' or isinstance(select, str) or isinstance(select, list)",
+                  "not isinstance(select, list) or all(isinstance(x, str) for x in select)"],
+        ensures=[
+            # never an ordering sentinel, always the value held by the state
+            "all(k in state.values and state.values[k] is not _EMIT_SENTINEL and result[k] is state.values[k] for k in result)",
+            # only names of the effective selection: run-time select overrides the graph default, '**' = declared outputs
+            "all(in_effective_selection(k, select, graph, _UNSET_SELECT) for k in result)",
+        ],
+        may_raise={"ValueError": "on_missing not in ('ignore', 'warn')"},
+        imports=SENT,
+        modifies=[],
+        mustfail="all(k in graph.outputs for k in result)",
+    ),
+})
